@@ -70,7 +70,8 @@ def gen_shape(rng, nmin=2, nmax=9, mix=None, pri="small", seq_rate=0.2, flags=Tr
             a = ["n", j, keys]
             r = rng.random()
             if flags and kinds and r < 0.12 and nd["active"] is None:
-                nd["active"] = ["n", j, []]
+                # (half of the flags are an indexed part of the producer's result - the key path belongs to the flag)
+                nd["active"] = a if rng.random() < 0.5 else ["n", j, []]
             elif kinds and r < 0.35:
                 nd["kwargs"]["k%d" % j] = a
             else:
